@@ -298,6 +298,30 @@ pub fn run(opts: &Opts) -> Report {
             Err(m) => rep.fail("panic", "test/unknown-key/panic", ctx, "(true, false, false)", &m),
         }
     }
+    // ---------- a key of another dataset: no data of this dataset carries it ----------
+    {
+        rep.count("find_data:key-of-another-dataset");
+        let ctx = vec!["set1 has the key a (handle 0) with data (a, x); set2 has the key b (handle 0) with data (b, 1): set2.find_data(key a of set1, any), store.find_data(\"set2\", key a, any), key b .test(key a), data (b, 1) .test(key a, any)".to_string()];
+        let got = guarded(std::panic::AssertUnwindSafe(|| -> Result<(usize, usize, bool, bool, usize), StamError> {
+            let mut st = AnnotationStore::default().with_id("s");
+            st.add_resource(TextResourceBuilder::new().with_id("r").with_text("hello"))?;
+            st.annotate(AnnotationBuilder::new().with_target(SelectorBuilder::textselector("r", Offset::simple(0, 1))).with_data("set1", "a", "x"))?;
+            st.annotate(AnnotationBuilder::new().with_target(SelectorBuilder::textselector("r", Offset::simple(1, 2))).with_data("set2", "b", 1))?;
+            let key_a = st.key("set1", "a").expect("key a");
+            let set2 = st.dataset("set2").expect("set2");
+            let key_b = set2.key("b").expect("key b");
+            let data_b = set2.data().next().expect("data");
+            Ok((set2.find_data(&key_a, DataOperator::Any).count(), st.find_data("set2", &key_a, DataOperator::Any).count(), key_b.test(&key_a), data_b.test(&key_a, &DataOperator::Any),
+                // (control: the key of the set itself finds its data)
+                set2.find_data(&key_b, DataOperator::Any).count()))
+        }));
+        match got {
+            Ok(Ok((0, 0, false, false, 1))) => {}
+            Ok(Ok(other)) => rep.fail("oracle", "find_data/key-of-another-dataset", ctx, "(0, 0, false, false, 1)", &format!("{:?}", other)),
+            Ok(Err(e)) => rep.fail("oracle", "find_data/key-of-another-dataset", ctx, "(0, 0, false, false, 1)", &format!("{}", e)),
+            Err(m) => rep.fail("panic", "find_data/key-of-another-dataset/panic", ctx, "(0, 0, false, false, 1)", &m),
+        }
+    }
     // ---------- one dataset arriving twice (a second store document merged into the first) ----------
     {
         let doc = |data: &str| format!("{{\"@type\": \"AnnotationStore\", \"resources\": [], \"annotationsets\": [{{\"@type\": \"AnnotationDataSet\", \"@id\": \"set\", \"keys\": [{{\"@type\": \"DataKey\", \"@id\": \"pos\"}}, {{\"@type\": \"DataKey\", \"@id\": \"lemma\"}}], \"data\": [{}]}}], \"annotations\": []}}", data);
